@@ -9,7 +9,7 @@ From Gen Require Import M_base M_Angle M_Epoch M_Interpolation M_Coordinates M_E
 From Proofs.C08 Require Import C08_base C08_obliquity C08_sun C08_j2000.
 From Proofs.C08 Require C08_angle2 C08_frames C08_equinox C08_coarse C08_node.
 From Proofs.C08 Require C08_nut_angle C08_nut_loop C08_nut_main C08_nut_bound.
-From Proofs.C08 Require C08_true C08_lat C08_latj C08_uncond C08_app.
+From Proofs.C08 Require C08_true C08_lat C08_latj C08_uncond C08_app C08_wide.
 From Proofs.C07 Require C07_mono_code.
 From Gen Require Import M_Moon.
 Import ListNotations.
@@ -18,8 +18,8 @@ Open Scope R_scope.
 Local Notation epoch j := (VObj cEpoch [VFloat j]).
 
 (* mean_obliquity(epoch) is Laskar's degree-10 polynomial in u = (JDE - 2451545)/3652500 added to
-   23 deg 26 min 21.448 s, for |u| <= 0.2 (years 0..4000) *)
-Theorem C08_mean_obliquity_polynomial : forall j, Rabs (uj j) <= 0.2 ->
+   23 deg 26 min 21.448 s, for |u| <= 0.4 (years -2000..6000) *)
+Theorem C08_mean_obliquity_polynomial : forall j, Rabs (uj j) <= 0.4 ->
   f_mean_obliquity Rops (VTuple [epoch j]) (VDict []) = ang (eps0 + laskar (uj j) / 3600).
 Proof. exact mean_obliquity_poly. Qed.
 
@@ -208,7 +208,7 @@ Proof. exact C08_node.node_nutation_eq. Qed.
 
 (* true obliquity without any assumption on nutation_obliquity: whatever it returns is handed to
    Angle.__add__ together with the mean obliquity (an error - OutOfFuel included - propagates) *)
-Theorem C08_true_obliquity_structure : forall j, Rabs (uj j) <= 0.2 ->
+Theorem C08_true_obliquity_structure : forall j, Rabs (uj j) <= 0.4 ->
   f_true_obliquity Rops (VTuple [epoch j]) (VDict []) =
   bind (f_nutation_obliquity Rops (VTuple [epoch j]) (VDict []))
        (fun de => Angle___add__ Rops (ang (eps0 + laskar (uj j) / 3600)) de).
@@ -320,8 +320,8 @@ Theorem C08_sun_geometric_unconditional : forall jde, C07_mono_code.jde_lo <= jd
 Proof. exact C08_lat.sun_geometric_unconditional. Qed.
 
 (* ... and the of-date rectangular coordinates have norm r to 2e-10 relative (norm^2 within
-   [r^2, r^2 (1 + 4e-10)]): the code follows Meeus in taking cos(lat) = 1; years 0 .. 4000 *)
-Theorem C08_rectangular_of_date_norm_unconditional : forall jde, Rabs (uj jde) <= 0.2 ->
+   [r^2, r^2 (1 + 4e-10)]): the code follows Meeus in taking cos(lat) = 1; years -2000 .. 6000 *)
+Theorem C08_rectangular_of_date_norm_unconditional : forall jde, Rabs (uj jde) <= 0.4 ->
   exists lon lat R x y z,
     Sun_geometric_geocentric_position Rops (epoch jde) (VBool true) = VTuple [ang lon; ang lat; VFloat R] /\
     Sun_rectangular_coordinates_mean_equinox Rops (epoch jde) = VTuple [VFloat x; VFloat y; VFloat z] /\
@@ -360,15 +360,30 @@ Theorem C08_true_minus_mean_bound : forall j, Rabs (C08_nut_main.Tc j) <= 20 ->
     Rabs deps <= 92025 / 10000 + 89 / 100000 * Rabs (C08_nut_main.Tc j) + 89 / 100.
 Proof. exact C08_true.true_minus_mean_bound. Qed.
 
-(* the apparent variant (nutation on) with its callee hypothesis discharged, years 0 .. 4000:
+(* the apparent variant (nutation on) with its callee hypothesis discharged, years -2000 .. 6000:
    apparent_vsop_pos on the Earth's tables = vsop_pos + FK5 + nutation (this property's structure
    theorem) + aberration (property C07's theorems), radius vector within 0.97 .. 1.03 AU *)
-Theorem C08_sun_apparent_unconditional : forall jde, Rabs (C08_nut_main.Tc jde) <= 20 ->
+Theorem C08_sun_apparent_unconditional : forall jde, Rabs (C08_nut_main.Tc jde) <= 40 ->
   exists L B R,
     Earth_apparent_heliocentric_position Rops (epoch jde) (VBool true) = VTuple [ang L; ang B; VFloat R] /\
     Sun_apparent_geocentric_position Rops (epoch jde) (VBool true) =
       VTuple [ang (reflect_lon L); ang (- B); VFloat R] /\
     0 <= L < 360 /\ Rabs B <= 65 / 100000 /\ 97 / 100 <= R <= 103 / 100.
 Proof. exact C08_app.sun_apparent_unconditional. Qed.
+
+(* result shapes over the wider range |T| <= 40 centuries (years -2000 .. 6000), for clients (C09, C14):
+   nutation in longitude / obliquity are Angles of at most 21 / 11 arc seconds (amplitude sums of the
+   extracted tables), true obliquity = mean + nutation lies in (22, 25) degrees - no assumption *)
+Theorem C08_nutation_shapes_wide : forall j, Rabs (C08_nut_main.Tc j) <= 40 ->
+  (exists dpsi, f_nutation_longitude Rops (VTuple [epoch j]) (VDict []) = ang (dpsi / 3600) /\ Rabs dpsi <= 21) /\
+  (exists deps, f_nutation_obliquity Rops (VTuple [epoch j]) (VDict []) = ang (deps / 3600) /\ Rabs deps <= 11) /\
+  (exists deps, f_true_obliquity Rops (VTuple [epoch j]) (VDict []) = ang (eps0 + laskar (uj j) / 3600 + deps / 3600) /\
+                Rabs deps <= 11 /\ 22 < eps0 + laskar (uj j) / 3600 + deps / 3600 < 25).
+Proof.
+  intros j HT. split; [|split].
+  - destruct (C08_wide.nutation_longitude_shape40 j HT) as (d & H1 & _ & H2). exists d. split; assumption.
+  - destruct (C08_wide.nutation_obliquity_shape40 j HT) as (d & H1 & _ & H2). exists d. split; assumption.
+  - destruct (C08_wide.true_obliquity_closed40 j HT) as (d & H1 & _ & H2 & H3). exists d. repeat split; try assumption; apply H3.
+Qed.
 
 (* Print Assumptions of every theorem: C08_pa_0.v .. C08_pa_9.v (compiled in parallel) *)
